@@ -430,7 +430,14 @@ impl Shared {
                                     if id != path[i].1 {
                                         v.push(Viol::new(format!("C03:tree-id:level{}", i), format!("tree identifier at level {} is not the derivation from (seed, parent leaf)", i)));
                                     }
-                                    let tag = if i + 1 == ph.sigs.len() { 0x1000 + msg_id as u64 } else { fnv(&sig[ph.pubs[i].0..ph.pubs[i].0 + ph.pubs[i].1]) };
+                                    // what an upper-level one-time key signs is the digest of (randomizer C, child public
+                                    // key): the same child key under another C reveals other chain positions of the same key
+                                    let tag = if i + 1 == ph.sigs.len() {
+                                        0x1000 + msg_id as u64
+                                    } else {
+                                        let c_end = (ps.off + 8 + ps.n).min(sig.len());
+                                        fnv(&sig[ph.pubs[i].0..ph.pubs[i].0 + ph.pubs[i].1]) ^ fnv(&sig[(ps.off + 8).min(c_end)..c_end]).rotate_left(17)
+                                    };
                                     let mut ida = [0u8; 16];
                                     ida.copy_from_slice(&id);
                                     rel.push((i as u8, ida, ps.q, tag));
